@@ -2,9 +2,12 @@ package c15
 
 import (
 	"fmt"
+	"sync"
+	"sync/atomic"
 	"testing"
 	"time"
 
+	"github.com/godaddy/asherah/go/appencryption/pkg/cache"
 	"pgregory.net/rapid"
 	"verif/kit"
 )
@@ -12,7 +15,7 @@ import (
 func TestMain(m *testing.M) {
 	kit.Main(m, "C15", "exploration",
 		"cache.New through its public builder with an injected Clock. (1) EXHAUSTIVE: every sequence up to length L (quick 5, thorough 6 and 7 for capacities 1-2; asynchronous mode 4 / 5) over {Set k (fresh value), Get k, Delete k} x 3 keys, clock advance (0.6 x expiry), Close, for all four policies x capacities 1..3 x expiry on/off; "+
-			"(2) rapid: long sequences (up to 300 / 2000 operations, key universe = capacity + 3, incl. GetOrPanic) over capacities 1..6, 99, 100, 101, 199, 200, all policies, with/without expiry, synchronous and asynchronous eviction; (2b) runs of 8-20 x capacity operations at capacities 100 / 101 / 128 so that the frequency-sketch policies complete several sample periods; (3) thorough: the same property under go test -fuzz via rapid.MakeFuzz. "+
+			"(2) rapid: long sequences (up to 300 / 2000 operations, key universe = capacity + 3, incl. GetOrPanic) over capacities 1..6, 99, 100, 101, 199, 200, all policies, with/without expiry, synchronous and asynchronous eviction; (2b) runs of 8-20 x capacity operations at capacities 100 / 101 / 128 so that the frequency-sketch policies complete several sample periods; (2c) 2-6 goroutines doing Get / Set (run-unique values) / Delete on caches of capacity 1-3 and 100: no panic, no deadlock, no value notified twice, hits return values set for that key, at most capacity entries at quiescence, Close notifies exactly the residents (the package documents the cache as safe for concurrent access); (3) thorough: the same property under go test -fuzz via rapid.MakeFuzz. "+
 			"Oracle: a reference model that owns presence through the callbacks (present = set - deleted - notified): Len = |present| <= capacity after every operation; Get hits with the last value iff present; a miss of a present key is legal only by expiry and must be notified in that call; "+
 			"no callback for an absent key, no second callback for one residence, callback value = value held; Close notifies every remaining entry exactly once and the cache is inert afterwards; LRU victim = least recently used (exact), LFU victim has minimal use count (ties free), "+
 			"SLRU victims consistent with a segmented LRU for some protected size 0..capacity; every operation under a 20 s deadlock watchdog, any panic is a violation. "+
@@ -223,4 +226,156 @@ func TestRandomLong(t *testing.T) {
 // FuzzCacheModel drives the same property from the native fuzzer (thorough tier).
 func FuzzCacheModel(f *testing.F) {
 	f.Fuzz(rapid.MakeFuzz(prop(400)))
+}
+
+// TestConcurrentUse: "The cache is safe for concurrent access." Several goroutines Get / Set /
+// Delete over a small key space on a tiny cache; every Set stores a value that is unique in the
+// run, so each residence is identifiable. At quiescence: nothing panicked, no value was notified
+// twice, a hit only ever returned a value that was set for that key, the cache holds at most its
+// capacity, and Close notifies exactly the residents - every value set is accounted for as
+// notified at most once, silently replaced by a later Set of its key, or deleted.
+func TestConcurrentUse(t *testing.T) {
+	kit.Check(t, 40, 1500, func(t *rapid.T) {
+		cfg := config{
+			policy:   rapid.SampledFrom(policies).Draw(t, "policy"),
+			capacity: rapid.SampledFrom([]int{1, 2, 3, 100}).Draw(t, "capacity"),
+			sync:     rapid.Bool().Draw(t, "sync"),
+		}
+		workers := rapid.IntRange(2, 6).Draw(t, "workers")
+		opsPer := rapid.IntRange(200, 1500).Draw(t, "ops")
+		keys := cfg.capacity + rapid.IntRange(1, 3).Draw(t, "extraKeys")
+		seeds := make([]uint32, workers)
+		for i := range seeds {
+			seeds[i] = uint32(rapid.IntRange(1, 1<<30).Draw(t, "stream"))
+		}
+		var mu sync.Mutex
+		notified := map[int]int{} // value -> callbacks
+		keyOf := map[int]int{}    // value -> key it was set for
+		var firstErr atomic.Value
+		note := func(format string, args ...any) { firstErr.CompareAndSwap(nil, fmt.Sprintf(format, args...)) }
+		b := cache.New[int, int](cfg.capacity).WithPolicy(cache.CachePolicy(cfg.policy)).WithEvictFunc(func(k, v int) {
+			mu.Lock()
+			notified[v]++
+			if kk, ok := keyOf[v]; ok && kk != k {
+				note("eviction callback for key %d carried value %d, which was set for key %d", k, v, kk)
+			}
+			mu.Unlock()
+		})
+		if cfg.sync {
+			b.Synchronous()
+		}
+		c := b.Build()
+		var wg sync.WaitGroup
+		start := make(chan struct{})
+		for w := 0; w < workers; w++ {
+			wg.Add(1)
+			go func(w int) {
+				defer wg.Done()
+				defer func() {
+					if p := recover(); p != nil {
+						note("worker %d panicked: %v", w, p)
+					}
+				}()
+				x := seeds[w]
+				next := func(n int) int { x = x*1664525 + 1013904223; return int(x>>8) % n }
+				<-start
+				for i := 0; i < opsPer && firstErr.Load() == nil; i++ {
+					k := next(keys)
+					switch r := next(10); {
+					case r < 4:
+						v := (w+1)*1_000_000 + i
+						mu.Lock()
+						keyOf[v] = k
+						mu.Unlock()
+						c.Set(k, v)
+					case r < 9:
+						if v, ok := c.Get(k); ok {
+							mu.Lock()
+							kk, known := keyOf[v]
+							mu.Unlock()
+							if !known || kk != k {
+								note("Get(%d) returned %d, a value that was never set for that key", k, v)
+							}
+						}
+					default:
+						c.Delete(k)
+					}
+				}
+			}(w)
+		}
+		close(start)
+		done := make(chan struct{})
+		go func() { wg.Wait(); close(done) }()
+		select {
+		case <-done:
+		case <-time.After(watchdog):
+			kit.Abort(fmt.Sprintf("C15 violated: concurrent Get / Set / Delete did not finish within %s (deadlock)\n  %s workers=%d", watchdog, cfg, workers))
+		}
+		bad := func(msg string) {
+			kit.Rec.Violation(msg)
+			t.Fatalf("C15 violated: %s\n  %s workers=%d ops/worker=%d keys=%d", msg, cfg, workers, opsPer, keys)
+		}
+		if v := firstErr.Load(); v != nil {
+			bad(v.(string))
+		}
+		time.Sleep(2 * time.Millisecond) // asynchronous callbacks of the last operations
+		if n := c.Len(); n > cfg.capacity {
+			bad(fmt.Sprintf("after the workers finished the cache holds %d entries, capacity %d", n, cfg.capacity))
+		}
+		resident := map[int]bool{}
+		for k := 0; k < keys; k++ {
+			if v, ok := c.Get(k); ok {
+				resident[v] = true
+			}
+		}
+		closed := make(chan struct{})
+		go func() {
+			defer func() {
+				if p := recover(); p != nil {
+					note("Close panicked: %v", p)
+				}
+				close(closed)
+			}()
+			c.Close()
+		}()
+		select {
+		case <-closed:
+		case <-time.After(watchdog):
+			kit.Abort(fmt.Sprintf("C15 violated: Close after concurrent use did not return within %s\n  %s", watchdog, cfg))
+		}
+		if v := firstErr.Load(); v != nil {
+			bad(v.(string))
+		}
+		deadline := time.Now().Add(2 * time.Second)
+		for {
+			mu.Lock()
+			missing := 0
+			for v := range resident {
+				if notified[v] == 0 {
+					missing++
+				}
+			}
+			mu.Unlock()
+			if missing == 0 || time.Now().After(deadline) {
+				break
+			}
+			time.Sleep(200 * time.Microsecond)
+		}
+		mu.Lock()
+		defer mu.Unlock()
+		for v, n := range notified {
+			if n > 1 {
+				bad(fmt.Sprintf("the eviction callback fired %d times for one residence (value %d of key %d)", n, v, keyOf[v]))
+			}
+		}
+		for v := range resident {
+			if notified[v] != 1 {
+				bad(fmt.Sprintf("value %d of key %d was still retrievable before Close but Close notified it %d times", v, keyOf[v], notified[v]))
+			}
+		}
+		kit.Rec.Case(fmt.Sprintf("concurrent|%s|%d|%d|%d", cfg, workers, opsPer, keys), true, func() any {
+			return map[string]any{"config": cfg.String(), "concurrent_workers": workers, "ops_per_worker": opsPer, "keys": keys, "callbacks": len(notified)}
+		})
+		kit.Rec.Label("concurrent:" + cfg.policy)
+	})
 }
